@@ -1,7 +1,8 @@
-import ScVerif.Base.Line
-/-! Driver handler for C06 (stub: replaced by the property's owner). -/
+import ScVerif.C05.Drv
+/-! Driver handler for C06: the same stateful handler as C05 (shared message-tree model); the C06
+operations are `rvalidate`, `rfilter`, `project` plus the library operations. -/
 namespace ScVerif.C06
 
-def handle (_toks : List String) : String := "!bad-op"
+def handleS := ScVerif.C05.handleS
 
 end ScVerif.C06
